@@ -20,6 +20,9 @@ import WebrtcVerif.Model.RemoteInput
       rtpr <planB> <closed>   → survived
       undecl  → ok {rid | ssrc-err | add <kind> <stream> <id>}*   (per media section)
       pt <n>  → none | ok <index>
+      uin <isAnswer> <withoutAnswer> <midOK> <ridOK> <ptKnown> <audioOK> <videoOK> <ssrc> <pktHex|->
+              → declared | add <kind> <stream> <id> | ssrc-err | err-add | err-peek | err-codec | err-early
+                | err-mid-required | err-rid-required | beyond | ambiguous      (handleIncomingSSRC, real SRTP stream)
       cut <nK> <pt>* <pktHex> → short | unknown | updated <pt> | unchanged
     h rr <bound>*             → read <i> | err                      (RTPReceiver.Read on tracks with/without bound RTCP readers)
     h ext <rawHex>            → ok <n> {<key> <value>}* | err      (exportExtensions; a key "fail" is refused)
@@ -111,6 +114,21 @@ def ambiguousPairs (ps : List (Nat × Nat)) : Bool :=
 def ambiguous (s : Session) : Bool :=
   s.medias.any fun m => ambiguousPairs (groupPairs kFID m) || ambiguousPairs (groupPairs kFECFR m)
 
+/-- `extmap` entries as (id, uri): id = first token up to `/`, uri = second token. When one id names two
+    URIs or one URI has two ids the MediaEngine's answer depends on Go map iteration order (not C30's
+    subject); the harness evaluates the same predicate and prints `ambiguous` too. -/
+def extEntries (s : Session) : List (Str × Str) :=
+  (s.medias.map fun m => m.attrs.filterMap fun a =>
+    if a.key == [101, 120, 116, 109, 97, 112] then
+      let f := split a.value cSpace
+      let id := (split (f.headD []) cSlash).headD []
+      some (id, (f.drop 1).headD [])
+    else none).flatten
+
+def ambiguousExt (s : Session) : Bool :=
+  let es := extEntries s
+  es.any fun p => es.any fun q => (p.1 == q.1) != (p.2 == q.2)
+
 def resStr {α : Type} (r : Res α) (f : α → String) : String :=
   match r with
   | .val a => f a
@@ -191,6 +209,23 @@ def runHelper (name : String) (params : List String) (s : Session) : String :=
       | .notHandledRid => "rid"
       | .errExplicitSSRC => "ssrc-err"
       | .add k sid id => s!"add {k} {hexOfStr sid} {hexOfStr id}")
+  | "uin", [ia, wa, mo, ro, pk, ao, vo, ssrc, pkt] =>
+    match [ia, wa, mo, ro, pk, ao, vo].mapM Wire.tokBool, ssrc.toNat?, strOfHex pkt with
+    | some [ia, wa, mo, ro, pk, ao, vo], some ssrc, some b =>
+      if ambiguous s || ambiguousExt s then "ambiguous" else
+      let peek := if b.length ≥ 12 then some b else none
+      resStr (handleIncomingSSRCHead s ia wa mo ro (fun _ => pk) (fun k => if k == 1 then ao else vo) ssrc peek) fun
+        | .declared => "declared"
+        | .added k sid id => s!"add {k} {hexOfStr sid} {hexOfStr id}"
+        | .ssrcErr => "ssrc-err"
+        | .errAdd => "err-add"
+        | .errPeek => "err-peek"
+        | .errCodec => "err-codec"
+        | .errEarly => "err-early"
+        | .errMidRequired => "err-mid-required"
+        | .errRidRequired => "err-rid-required"
+        | .beyond => "beyond"
+    | _, _, _ => "bad-op"
   | "pt", [n] =>
     match n.toNat? with
     | some pt =>
